@@ -303,9 +303,15 @@ class Context:
 
                 # Check for value (only if no getter/setter)
                 if getter is UNDEFINED and setter is UNDEFINED:
-                    value = descriptor.get("value")
-                    if value is not UNDEFINED:
-                        obj.define_property(prop_name, value)
+                    if descriptor.has("value"):
+                        # (an explicit `value: undefined` defines the property too)
+                        obj.define_property(prop_name, descriptor.get("value"))
+                    elif not (
+                        obj.has(prop_name)
+                        or prop_name in obj._getters
+                        or prop_name in obj._setters
+                    ):
+                        obj.define_property(prop_name, UNDEFINED)
 
             return obj
 
